@@ -11,6 +11,22 @@ def oTag {α} (o : Outcome α) (f : α → String) : String :=
 def kv (toks : List String) (k : String) : Option String :=
   (toks.find? (·.startsWith (k ++ "="))).map fun t => (t.drop (k.length + 1)).toString
 
+/-- the confirm arriving as a raw stream: TPKT deframing first, then the same decision -/
+def x224StreamOp (off auth hx : String) : String :=
+  -- the same decision, the confirm arriving as a raw stream: TPKT deframing first
+  match off.toNat?, ofHex hx with
+  | some off, some d =>
+    let hasAuth := auth = "1"
+    let m := match Tpkt.read ⟨d, []⟩ with
+      | .ok (.raw p, _) =>
+        (let m := oTag (negotiate off hasAuth p) fun dec => match dec with | .continueRaw => "ok raw" | _ => "E tls"
+         if m = "E" then "E none" else m)
+      | .ok (.fast _ _, _) => "E none"
+      | .err _ => "E none"
+      | .panic _ => "P"
+    m ++ "\t-"
+  | _, _ => "bad-case"
+
 def connectOps (toks : List String) : String :=
   match toks with
   | ["x224_conn", off, auth, hx] =>
@@ -27,20 +43,11 @@ def connectOps (toks : List String) : String :=
         | none => "-"
       m ++ "\t" ++ oracle
     | _, _ => "bad-case"
-  | ["x224_stream", off, auth, hx] =>
-    -- the same decision, the confirm arriving as a raw stream: TPKT deframing first
-    match off.toNat?, ofHex hx with
-    | some off, some d =>
-      let hasAuth := auth = "1"
-      let m := match Tpkt.read ⟨d, []⟩ with
-        | .ok (.raw p, _) =>
-          (let m := oTag (negotiate off hasAuth p) fun dec => match dec with | .continueRaw => "ok raw" | _ => "E tls"
-           if m = "E" then "E none" else m)
-        | .ok (.fast _ _, _) => "E none"
-        | .err _ => "E none"
-        | .panic _ => "P"
-      m ++ "\t-"
-    | _, _ => "bad-case"
+  | ["x224_stream", off, auth, hx] => x224StreamOp off auth hx
+  | ["x224_stream", off, auth, hx, _stall] =>
+    -- the same stream on a transport whose reads fail (WouldBlock / TimedOut) once the server goes silent:
+    -- a failed read is an error like the end of the stream
+    x224StreamOp off auth (if hx = "-" then "" else hx)
   | ["gcc_ccr", hx] =>
     match ofHex hx with
     | some b =>
